@@ -1625,3 +1625,274 @@ Section Tokens.
   (* predicate family for removeif / erase during iteration *)
   Definition tok_pred (m r t : Z) : bool := tok_canon t mod m =? r.
 End Tokens.
+
+(* ====================================================================================================
+   Part II - the vocabulary of the theorem statements (coq/C12/Properties.v): well-formedness predicates and
+   representation invariants, abstraction functions, whole-history runners, the relations between concrete and
+   abstract states and results, and the bounds that appear in the statements.  Definitions only; every lemma
+   about them lives in the Proofs*.v files.  Nothing here is extracted.
+   ==================================================================================================== *)
+From Coq Require Import Permutation.
+
+(* ---- vector: size within the allocation; histories *)
+Section SpecVector.
+  Variable T : Type.
+  Variable dflt : T.
+  Variable teqb : T -> T -> bool.
+  Definition vec_wf (v : vec T) : Prop := vsize T v <= length (vdata T v).
+
+  Fixpoint vec_run (ops : list (cop T)) (v : vec T) : res (vec T * list (cret T)) :=
+    match ops with
+    | [] => Ok (v, [])
+    | o :: tl => p <- vec_step T dflt teqb o v ;; q <- vec_run tl (fst p) ;; Ok (fst q, snd p :: snd q)
+    end.
+
+  Fixpoint lst_run (ops : list (cop T)) (l : list T) : res (list T * list (cret T)) :=
+    match ops with
+    | [] => Ok (l, [])
+    | o :: tl => p <- lst_step T dflt teqb o l ;; q <- lst_run tl (fst p) ;; Ok (fst q, snd p :: snd q)
+    end.
+
+End SpecVector.
+
+(* ---- sequence: an uninitialised sequence is empty; an allocated one keeps slot 0 (never part of the contents) and
+   size < capacity.  The abstract state is (slot 0, elements 1..size). *)
+Section SpecSequence.
+  Variable T : Type.
+  Variable dflt : T.
+  Variable teqb : T -> T -> bool.
+  Definition seq_wf (s : seq T) : Prop :=
+    (sinit T s = false -> sdata T s = [] /\ ssize T s = 0) /\
+    ((sdata T s = [] /\ ssize T s = 0) \/ ssize T s < length (sdata T s)).
+
+  Definition slot0 (d : list T) : T := match nth_error d 0 with Some x => x | None => dflt end.
+
+  Definition seq_abs (s : seq T) : T * list T := (slot0 (sdata T s), firstn (ssize T s) (skipn 1 (sdata T s))).
+
+  Fixpoint seq_run (ops : list (cop T)) (s : seq T) : res (seq T * list (cret T)) :=
+    match ops with
+    | [] => Ok (s, [])
+    | o :: tl => p <- seq_step T dflt teqb o s ;; q <- seq_run tl (fst p) ;; Ok (fst q, snd p :: snd q)
+    end.
+
+  Fixpoint sq_run (ops : list (cop T)) (st : T * list T) : res ((T * list T) * list (cret T)) :=
+    match ops with
+    | [] => Ok (st, [])
+    | o :: tl => p <- sq_step T dflt teqb o st ;; q <- sq_run tl (fst p) ;; Ok (fst q, snd p :: snd q)
+    end.
+
+End SpecSequence.
+
+(* ---- association lists: lookup returning the stored binding; keys pairwise not == *)
+Section SpecAL.
+  Variables K V : Type.
+  Variable keqb : K -> K -> bool.
+  Fixpoint al_find (k : K) (al : list (K * V)) : option (K * V) :=
+    match al with
+    | [] => None
+    | kv :: tl => if keqb k (fst kv) then Some kv else al_find k tl
+    end.
+
+  Definition keys_nodup (al : list (K * V)) : Prop :=
+    ForallOrdPairs (fun a b => keqb (fst a) (fst b) = false) al.
+
+End SpecAL.
+
+(* ---- hashmap *)
+Section SpecHashMap.
+  Variables K V : Type.
+  Variable kdflt : K.
+  Variable vdflt : V.
+  Variable keqb : K -> K -> bool.
+  Variable khash : K -> Z.
+  Notation node := (hnode K V).
+  Notation hmap := (hmap K V).
+
+  (* chain segments: following next from [s] visits exactly the node indices [l] and ends with pointer [e] *)
+  Inductive Seg (ns : list node) : option nat -> list nat -> option nat -> Prop :=
+  | Seg_nil : forall s, Seg ns s [] s
+  | Seg_cons : forall i nd l e, nth_error ns i = Some nd -> Seg ns (nnext K V nd) l e -> Seg ns (Some i) (i :: l) e.
+
+  (* the representation invariant, with its witnesses: [ch b] = the chain of bucket b, [fl] = the free list.
+     Chains and free list are duplicate-free segments ending in INVALID; every node is on exactly the structure its
+     flag says; a chained node is filled and hashes to its bucket; filled keys are pairwise not ==; size counts the
+     filled nodes; the node array has the load-factor capacity and, once allocated, a free node. *)
+  Definition MAXLF := HM_MAXLF_n.
+
+  Record hm_inv_w (m : hmap) (ch : nat -> list nat) (fl : list nat) : Prop := {
+    inv_ch : forall b, b < length (hbuckets K V m) ->
+               exists s, nth_error (hbuckets K V m) b = Some s /\ Seg (hnodes K V m) s (ch b) None;
+    inv_fl : Seg (hnodes K V m) (hfree K V m) fl None;
+    inv_nd : forall b, b < length (hbuckets K V m) -> NoDup (ch b);
+    inv_ndf : NoDup fl;
+    inv_cov : forall i nd, nth_error (hnodes K V m) i = Some nd ->
+                if nfilled K V nd then exists b, b < length (hbuckets K V m) /\ In i (ch b) else In i fl;
+    inv_fill : forall b i nd, b < length (hbuckets K V m) -> In i (ch b) -> nth_error (hnodes K V m) i = Some nd ->
+                 nfilled K V nd = true /\ hashmod (khash (nkey K V nd)) (length (hbuckets K V m)) = b;
+    inv_unf : forall i nd, In i fl -> nth_error (hnodes K V m) i = Some nd -> nfilled K V nd = false;
+    inv_keys : forall i j ni nj, nth_error (hnodes K V m) i = Some ni -> nth_error (hnodes K V m) j = Some nj ->
+                 nfilled K V ni = true -> nfilled K V nj = true -> keqb (nkey K V ni) (nkey K V nj) = true -> i = j;
+    inv_size : hsize K V m = length (filter (nfilled K V) (hnodes K V m));
+    inv_emp : length (hbuckets K V m) = 0 -> hnodes K V m = [];
+    inv_cap : length (hbuckets K V m) * MAXLF <= length (hnodes K V m) * 100;
+    inv_cap2 : length (hnodes K V m) <= ceilidiv (length (hbuckets K V m) * MAXLF) 100 + 1;
+    inv_room : 0 < length (hbuckets K V m) -> hsize K V m < length (hnodes K V m)
+  }.
+
+  Definition hm_inv (m : hmap) : Prop := exists ch fl, hm_inv_w m ch fl.
+
+  (* the bindings in node order (= iteration order) *)
+  Definition abs_of (ns : list node) : list (K * V) :=
+    map (fun nd => (nkey K V nd, nval K V nd)) (filter (nfilled K V) ns).
+
+  Definition hm_abs (m : hmap) : list (K * V) := abs_of (hnodes K V m).
+
+  (* concrete map ~ association list: invariant + the same bindings as a multiset; results are equal except
+     iteration results, which are permutations of each other *)
+  Definition hm_R (m : hmap) (al : list (K * V)) : Prop := hm_inv m /\ Permutation (hm_abs m) al.
+
+  Definition ret_rel (r1 r2 : hret K V) : Prop :=
+    match r1, r2 with
+    | HList _ _ l1, HList _ _ l2 => Permutation l1 l2
+    | _, _ => r1 = r2
+    end.
+
+  (* what erase-while-iterating keeps: a selected binding stays only if its key is not == to itself (never found) *)
+  Definition keep (pred : K -> V -> bool) (kv : K * V) : bool := negb (pred (fst kv) (snd kv) && keqb (fst kv) (fst kv)).
+
+  (* the largest bucket count an inserting access can request from a map holding s bindings (the initial
+     allocation, and the growth rehash after the insertion); the largest bucket count operation o can request
+     of a map holding s bindings (0: it requests nothing); the count argument of reserve/rehash *)
+  Definition at_request (s : nat) : nat :=
+    Nat.max (Nat.max HM_INIT_n (ceilidiv (s * 100) HM_MAXLF_n))
+            (Nat.max (ceilidiv ((s + 1) * HM_GROW_n) HM_MAXLF_n) (ceilidiv ((s + 1) * 100) HM_MAXLF_n)).
+
+  Definition hop_request (o : hop K V) (s : nat) : nat :=
+    match o with
+    | HSet _ _ _ _ | HGet _ _ _ => at_request s
+    | HReserve _ _ n => Nat.max (ceilidiv (n * 100) HM_MAXLF_n) (ceilidiv (s * 100) HM_MAXLF_n)
+    | HRehash _ _ n => Nat.max n (ceilidiv (s * 100) HM_MAXLF_n)
+    | _ => 0
+    end.
+
+  Definition hop_count (o : hop K V) : nat :=
+    match o with HReserve _ _ n | HRehash _ _ n => n | _ => 0 end.
+
+  (* whole histories: concrete map, association-list specification, hash-free flat map *)
+  Fixpoint hm_run (ops : list (hop K V)) (m : hmap) : res (hmap * list (hret K V)) :=
+    match ops with
+    | [] => Ok (m, [])
+    | o :: tl => p <- hm_step K V kdflt vdflt keqb khash o m ;; q <- hm_run tl (fst p) ;; Ok (fst q, snd p :: snd q)
+    end.
+
+  Fixpoint al_run (ops : list (hop K V)) (al : list (K * V)) : res (list (K * V) * list (hret K V)) :=
+    match ops with
+    | [] => Ok (al, [])
+    | o :: tl => p <- al_step K V vdflt keqb o al ;; q <- al_run tl (fst p) ;; Ok (fst q, snd p :: snd q)
+    end.
+
+  Fixpoint fm_run (ops : list (hop K V)) (m : hmap) : res (hmap * list (hret K V)) :=
+    match ops with
+    | [] => Ok (m, [])
+    | o :: tl => p <- fm_step K V kdflt vdflt keqb o m ;; q <- fm_run tl (fst p) ;; Ok (fst q, snd p :: snd q)
+    end.
+End SpecHashMap.
+
+(* ---- stringbuilder: empty and unallocated, or size < capacity (the NUL slot exists), capacity at least the initial
+   one, and every byte from [size] on is zero; [sb_wf_a]: the same without the capacity floor (fallback allocations);
+   the protocol conditions on prepare/commit; what an operation returns when its allocation was refused; histories *)
+Definition sb_wf (b : sb) : Prop :=
+  (sbdata b = [] /\ sbsize b = 0) \/
+  (sbsize b < length (sbdata b) /\ SB_INIT_CAP_n <= length (sbdata b) /\
+   forall i, sbsize b <= i -> i < length (sbdata b) -> nth_error (sbdata b) i = Some 0%Z).
+
+Definition sb_wf_a (b : sb) : Prop :=
+  (sbdata b = [] /\ sbsize b = 0) \/
+  (sbsize b < length (sbdata b) /\
+   forall i, sbsize b <= i -> i < length (sbdata b) -> nth_error (sbdata b) i = Some 0%Z).
+
+Definition sb_op_ok (o : bop) : Prop :=
+  match o with
+  | BPwc n xs => length xs <= n          (* at most the n bytes asked for are written into the span *)
+  | _ => True
+  end.
+
+Definition sb_op_ok_at (b : sb) (o : bop) : Prop :=
+  match o with
+  | BPwc n xs => forall p, sb_prepare n b = Ok p -> length xs <= snd p
+  | _ => True
+  end.
+
+Definition sb_op_ok_a (o : bop) : Prop :=
+  match o with
+  | BPwc n xs => length xs <= n
+  | BCommitOver _ _ => False     (* with an empty span "span length + 1" may lie inside the buffer: not a violation *)
+  | BWriteParts _ => False       (* may be written in part: see sb_write_parts_a_ok *)
+  | _ => True
+  end.
+
+Definition sb_failure (o : bop) (r : bret) : Prop :=
+  match o with
+  | BWrite _ => r = BOkN false 0
+  | BWriteByte _ _ | BResize _ | BPwc _ _ | BPrepare _ => r = BBool false
+  | _ => False
+  end.
+
+Fixpoint sb_run (ops : list bop) (b : sb) : res (sb * list bret) :=
+  match ops with
+  | [] => Ok (b, [])
+  | o :: tl => p <- sb_step o b ;; q <- sb_run tl (fst p) ;; Ok (fst q, snd p :: snd q)
+  end.
+
+Fixpoint by_run (ops : list bop) (l : list Z) : res (list Z * list bret) :=
+  match ops with
+  | [] => Ok (l, [])
+  | o :: tl => p <- by_step o l ;; q <- by_run tl (fst p) ;; Ok (fst q, snd p :: snd q)
+  end.
+
+
+(* ---- span: the window lies inside the storage *)
+Definition sp_wf {T} (mem : list T) (s : spanw) : Prop := sp_off s + sp_size s <= length mem.
+
+
+(* ---- list (doubly linked): [l] lists the node indices front to back; every listed node is alive and its prev/next
+   are exactly its neighbours in [l]; front/back are the ends; the contents are the values in that order *)
+Section SpecDList.
+  Variable T : Type.
+  Variable dflt : T.
+  Variable teqb : T -> T -> bool.
+  Notation lnode := (lnode T).
+  Notation dlist := (dlist T).
+  Notation larena := (larena T).
+  Notation lfront := (lfront T).
+  Notation lback := (lback T).
+  Notation lprev := (lprev T).
+  Notation lnext := (lnext T).
+  Notation lval := (lval T).
+  Notation lalive := (lalive T).
+  Definition node_ok (a : list lnode) (l : list nat) (k i : nat) : Prop :=
+    exists nd, nth_error a i = Some nd /\ lalive nd = true /\
+               lprev nd = (if k =? 0 then None else nth_error l (k - 1)) /\ lnext nd = nth_error l (S k).
+
+  Definition dl_wf (d : dlist) (l : list nat) : Prop :=
+    NoDup l /\ lfront d = nth_error l 0 /\
+    lback d = (if length l =? 0 then None else nth_error l (length l - 1)) /\
+    forall k i, nth_error l k = Some i -> node_ok (larena d) l k i.
+
+  Definition val_at (a : list lnode) (i : nat) : T := match nth_error a i with Some nd => lval nd | None => dflt end.
+
+  Definition vals (a : list lnode) (l : list nat) : list T := map (val_at a) l.
+
+  Fixpoint dl_run (ops : list (lop T)) (d : dlist) : res (dlist * list (lret T)) :=
+    match ops with
+    | [] => Ok (d, [])
+    | o :: tl => p <- dl_step T teqb o d ;; q <- dl_run tl (fst p) ;; Ok (fst q, snd p :: snd q)
+    end.
+
+  Fixpoint ll_run (ops : list (lop T)) (l : list T) : res (list T * list (lret T)) :=
+    match ops with
+    | [] => Ok (l, [])
+    | o :: tl => p <- ll_step T teqb o l ;; q <- ll_run tl (fst p) ;; Ok (fst q, snd p :: snd q)
+    end.
+
+End SpecDList.
